@@ -6,7 +6,12 @@ package main
 import (
 	"bytes"
 	"crypto"
+	"crypto/ecdsa"
+	"crypto/ed25519"
+	"crypto/elliptic"
 	"crypto/rand"
+	"fmt"
+	"os"
 	"crypto/rsa"
 	"crypto/sha256"
 	"crypto/x509"
@@ -77,7 +82,44 @@ type symSigner struct {
 
 var sidCerts = map[string][3]string{"A": {"k1", "i1", "s1"}, "B": {"k2", "i2", "s2"}, "At": {"k2", "i1", "s1"}, "C": {"k3", "i2", "s1"}}
 
-func certByName(n string) *x509.Certificate { c := sidCerts[n]; return testCert(c[0], c[1], c[2]) }
+func certByName(n string) *x509.Certificate {
+	if n == "Ae" || n == "Ac" {
+		return otherKindCert(n)
+	}
+	c := sidCerts[n]
+	return testCert(c[0], c[1], c[2])
+}
+
+// otherKindCert: a certificate with A's issuer name and serial number whose key is not an RSA key ("Ae": Ed25519, "Ac": ECDSA P-256).
+var otherKind = map[string]*x509.Certificate{}
+
+func otherKindCert(n string) *x509.Certificate {
+	keyMu.Lock()
+	defer keyMu.Unlock()
+	if c, ok := otherKind[n]; ok {
+		return c
+	}
+	tmpl := &x509.Certificate{SerialNumber: serialNumber("s1"), Subject: issuerName("i1"), Issuer: issuerName("i1"),
+		NotBefore: time.Date(2020, 1, 1, 0, 0, 0, 0, time.UTC), NotAfter: time.Date(2099, 1, 1, 0, 0, 0, 0, time.UTC),
+		KeyUsage: x509.KeyUsageDigitalSignature, BasicConstraintsValid: true}
+	var pub any
+	var priv crypto.Signer
+	if n == "Ae" {
+		p, k, _ := ed25519.GenerateKey(rand.Reader)
+		pub, priv = p, k
+	} else {
+		k, _ := ecdsa.GenerateKey(elliptic.P256(), rand.Reader)
+		pub, priv = &k.PublicKey, k
+	}
+	der, err := x509.CreateCertificate(rand.Reader, tmpl, tmpl, pub, priv)
+	if err != nil {
+		fmt.Fprintln(os.Stderr, "worker: cannot create certificate:", err)
+		os.Exit(3)
+	}
+	c, _ := x509.ParseCertificate(der)
+	otherKind[n] = c
+	return c
+}
 
 func ctypeOID(ct string) asn1.ObjectIdentifier {
 	switch ct {
